@@ -358,6 +358,20 @@ def rule_valid_ip(ck):
         ck.ob(rid, f, h, isinstance(last, (ast.Return, ast.Raise)), "the %s handler ends in return/raise" % "/".join(q.handler_names(h)))
 
 
+def _either32(a, b):
+    return {k: a.get(k, False) or b.get(k, False) for k in set(a) | set(b)}
+
+
+def _alias_member_flag(ap, cfg, scanv):
+    """`scanv not in T` where T is a local alias of self.trusted_downstream"""
+    out = {}
+    for t in cfg.stmt_nodes(lambda t: t.kind == "test"):
+        e = t.ast
+        if isinstance(e, ast.Compare) and len(e.ops) == 1 and isinstance(e.ops[0], (ast.In, ast.NotIn)) and q.dotted(e.left) == scanv and isinstance(e.comparators[0], ast.Name) and q.dotted(alias_expand(ap.node, e.comparators[0])) == "self.trusted_downstream":
+            out = _either32(out, branch_flag(cfg, q.unparse(e), isinstance(e.ops[0], ast.NotIn), [scanv]))
+    return out
+
+
 def rule_precedence(ck):
     rid = "C32.precedence"
     ap = ck.func(HS, CTX + "._apply_xheaders")
@@ -387,40 +401,94 @@ def rule_precedence(ck):
         return None
 
     g = hdr_get(last.ast.value) if last.kind == "stmt" and isinstance(last.ast, ast.Assign) else None
-    ck.ob(rid, ap, last.ast if last.kind == "stmt" else ap.node, g is not None and g[0] == "x-real-ip" and not between, "the value that gets validated is X-Real-Ip when present (it is looked up last, so it takes precedence)")
-    if g is None or not isinstance(g[1], ast.Name):
-        if g is not None:
-            if (q.dotted(g[1]) or "").startswith("self.") or isinstance(g[1], ast.Constant):
-                ck.ob(rid, ap, last.ast, False, "without X-Real-Ip the X-Forwarded-For candidate is used (default of the X-Real-Ip lookup is %s)" % q.unparse(g[1]))
-                return
-            raise AnalysisError("_apply_xheaders: default of the X-Real-Ip lookup is not a local name: %s" % q.unparse(g[1]))
-        return
+    if g is None or g[0] != "x-real-ip":
+        # conditional forms: `if K in headers: cand = headers[K]` / try: cand = headers[K] except KeyError
+        def real_ip_read(v):
+            if isinstance(v, ast.Subscript) and q.dotted(v.value) == hp and isinstance(v.slice, ast.Constant) and isinstance(v.slice.value, str) and v.slice.value.lower() == "x-real-ip":
+                return True
+            return False
+
+        cond_defs = [d for d in defs if d.kind == "stmt" and isinstance(d.ast, ast.Assign) and real_ip_read(d.ast.value)]
+        mentions = [c_ for c_ in ast.walk(ap.node) if isinstance(c_, ast.Constant) and isinstance(c_.value, str) and c_.value.lower() == "x-real-ip"]
+        if len(cond_defs) == 1:
+            rd_ = cond_defs[0]
+            pm_ = q.parent_map(ap.node)
+            guarded = any(branch_flag(cfg, q.unparse(t.ast), isinstance(t.ast.ops[0], ast.In), []).get(rd_.id, False) for t in cfg.stmt_nodes(lambda t: t.kind == "test") if isinstance(t.ast, ast.Compare) and len(t.ast.ops) == 1 and isinstance(t.ast.ops[0], (ast.In, ast.NotIn)) and isinstance(t.ast.left, ast.Constant) and str(t.ast.left.value).lower() == "x-real-ip" and q.dotted(t.ast.comparators[0]) == hp) or q.protected_by(pm_, rd_.ast.value, "KeyError") is not None
+            if not guarded:
+                raise AnalysisError("_apply_xheaders: X-Real-Ip read %s is neither guarded by a membership test nor by a KeyError handler" % q.unparse(rd_.ast))
+            later = [d for d in defs if d is not rd_ and _reaches(cfg, rd_, d) and _reaches(cfg, d, vt)]
+            ck.ob(rid, ap, rd_.ast, not later and _reaches(cfg, rd_, vt), "the value that gets validated is X-Real-Ip when present (it is assigned last, so it takes precedence)")
+            scan_defs = [d for d in defs if d is not rd_]
+            if not scan_defs:
+                raise AnalysisError("_apply_xheaders: no X-Forwarded-For candidate precedes the X-Real-Ip read")
+            last = rd_
+            g = ("x-real-ip", ast.Name(id=cand, ctx=ast.Load()))
+            defs = scan_defs
+        elif [d for d in defs if d.kind == "stmt" and isinstance(d.ast, ast.Assign) and (hdr_get(d.ast.value) or ("", None))[0] == "x-real-ip"]:
+            # positively established: X-Real-Ip is read into the candidate, and the candidate is re-bound afterwards
+            gd = [d for d in defs if d.kind == "stmt" and isinstance(d.ast, ast.Assign) and (hdr_get(d.ast.value) or ("", None))[0] == "x-real-ip"][0]
+            over = [d for d in defs if d is not gd and _reaches(cfg, gd, d) and _reaches(cfg, d, vt)]
+            if not over:
+                raise AnalysisError("_apply_xheaders: the way X-Real-Ip is consulted is not recognised")
+            ck.ob(rid, ap, gd.ast, False, "the value that gets validated is X-Real-Ip when present: it is looked up, but the candidate is re-bound afterwards (%s), so X-Real-Ip does not take precedence" % q.unparse(over[0].ast if over[0].kind == "stmt" else over[0].ast.target)[:60])
+            return
+        elif mentions:
+            raise AnalysisError("_apply_xheaders: the way X-Real-Ip is consulted is not recognised")
+        else:
+            ck.ob(rid, ap, vt.ast, False, "the value that gets validated is X-Real-Ip when present: the header is never consulted", construct="X-Real-Ip never read")
+            return
+    else:
+        ck.ob(rid, ap, last.ast, not between, "the value that gets validated is X-Real-Ip when present (it is looked up last, so it takes precedence)")
+    if not isinstance(g[1], ast.Name):
+        if (q.dotted(g[1]) or "").startswith("self.") or isinstance(g[1], ast.Constant):
+            ck.ob(rid, ap, last.ast, False, "without X-Real-Ip the X-Forwarded-For candidate is used (default of the X-Real-Ip lookup is %s)" % q.unparse(g[1]))
+            return
+        raise AnalysisError("_apply_xheaders: default of the X-Real-Ip lookup is not a local name: %s" % q.unparse(g[1]))
     scanv = g[1].id  # the X-Forwarded-For candidate: default of the X-Real-Ip lookup
     # XFF scan: the loop that binds that candidate
     loops = [n for n in cfg.nodes if n.kind == "for" and n.id in cfg.reachable() and scanv in {x.id for x in ast.walk(n.ast.target) if isinstance(x, ast.Name)}]
-    if len(loops) != 1:
+    nexts = [d for d in cfg.stmt_nodes(lambda n: n.kind == "stmt" and isinstance(n.ast, ast.Assign) and scanv in q.assigned_paths(n.ast)) if d is not last and q.is_call(d.ast.value, "next") and d.ast.value.args and isinstance(d.ast.value.args[0], ast.GeneratorExp) and cfg.dominates(d, last)]
+    lp = None
+    if len(loops) == 1 and not nexts:
+        lp = loops[0]
+        site = lp.ast.iter
+        ck.ob(rid, ap, site, cfg.dominates(lp, last), "the X-Forwarded-For scan comes before the X-Real-Ip lookup")
+        it = alias_expand(ap.node, lp.ast.iter)
+        body_strip = any(isinstance(c, ast.Call) and isinstance(c.func, ast.Attribute) and c.func.attr == "strip" and scanv in q.names_in(c) for st in lp.ast.body for c in ast.walk(st))
+    elif len(nexts) == 1 and not loops:
+        # `next((c for c in <list> if c not in trusted), <default>)`: a generator consumed up to its first element is the scan loop
+        ge = nexts[0].ast.value.args[0]
+        site = nexts[0].ast.value
+        gen0 = ge.generators[0]
+        if len(ge.generators) != 1 or not isinstance(gen0.target, ast.Name) or q.dotted(ge.elt) != gen0.target.id:
+            raise AnalysisError("_apply_xheaders: scan generator not understood: %s" % q.unparse(ge))
+        it = alias_expand(ap.node, gen0.iter)
+        body_strip = False
+        conds = [alias_expand(ap.node, c_) for c_ in gen0.ifs]
+        ok_c = len(conds) == 1 and isinstance(conds[0], ast.Compare) and len(conds[0].ops) == 1 and isinstance(conds[0].ops[0], ast.NotIn) and q.dotted(conds[0].left) == gen0.target.id and q.dotted(conds[0].comparators[0]) == "self.trusted_downstream"
+        if not ok_c and not (len(conds) == 1 and any(q.dotted(x) == "self.trusted_downstream" for x in ast.walk(conds[0]))):
+            raise AnalysisError("_apply_xheaders: scan condition not understood: %s" % [q.unparse(c_) for c_ in conds])
+        ck.ob(rid, ap, site, ok_c, "the scan stops exactly at the first entry that is not a trusted downstream proxy")
+    else:
         # not a loop variable: is it established that it is something else?
-        defs_ = [d for d in cfg.stmt_nodes(lambda n: n.kind == "stmt" and scanv in q.assigned_paths(n.ast))]
+        defs_ = [d for d in cfg.stmt_nodes(lambda n: n.kind == "stmt" and scanv in q.assigned_paths(n.ast)) if d is not last]
         if defs_ and all(isinstance(d.ast, ast.Assign) and (q.dotted(d.ast.value) or "").startswith("self.") for d in defs_):
             ck.ob(rid, ap, last.ast, False, "without X-Real-Ip the X-Forwarded-For candidate is used (default of the X-Real-Ip lookup is %s)" % sorted({q.dotted(d.ast.value) for d in defs_}))
             return
         raise AnalysisError("_apply_xheaders: X-Forwarded-For scan loop for %s not found" % scanv)
-    lp = loops[0]
-    ck.ob(rid, ap, lp.ast.iter, cfg.dominates(lp, last), "the X-Forwarded-For scan comes before the X-Real-Ip lookup")
-    it = alias_expand(ap.node, lp.ast.iter)
     splits = [c for c in ast.walk(it) if isinstance(c, ast.Call) and isinstance(c.func, ast.Attribute) and c.func.attr == "split" and len(c.args) == 1 and q.is_const(c.args[0], ",")]
     if len(splits) != 1:
         raise AnalysisError("_apply_xheaders: scan iterable not understood: %s" % q.unparse(it))
     rev = [c for c in ast.walk(it) if q.is_call(c, "reversed") and any(x is splits[0] for x in ast.walk(c))]
     neg = [s_ for s_ in ast.walk(it) if isinstance(s_, ast.Subscript) and isinstance(s_.slice, ast.Slice) and s_.slice.step is not None and q.unparse(s_.slice.step) == "-1" and any(x is splits[0] for x in ast.walk(s_))]
-    ck.ob(rid, ap, lp.ast.iter, (len(rev) + len(neg)) == 1, "the list is scanned from the right (closest proxy first)")
-    ck.ob(rid, ap, lp.ast.iter, any(isinstance(c, ast.Call) and isinstance(c.func, ast.Attribute) and c.func.attr == "strip" for c in ast.walk(it)) or any(isinstance(c, ast.Call) and isinstance(c.func, ast.Attribute) and c.func.attr == "strip" and scanv in q.names_in(c) for st in lp.ast.body for c in ast.walk(st)), "entries are stripped of blanks before they are compared/validated")
+    ck.ob(rid, ap, site, (len(rev) + len(neg)) == 1, "the list is scanned from the right (closest proxy first)")
+    ck.ob(rid, ap, site, any(isinstance(c, ast.Call) and isinstance(c.func, ast.Attribute) and c.func.attr == "strip" for c in ast.walk(it)) or body_strip, "entries are stripped of blanks before they are compared/validated")
     recv = splits[0].func.value
     g2 = hdr_get(recv)
-    site = lp.ast.iter
+    anchor_node = lp if lp is not None else nexts[0]
     if g2 is None:
         src = q.dotted(recv)
-        sd = [d for d in cfg.stmt_nodes(lambda n: n.kind == "stmt" and src is not None and src in q.assigned_paths(n.ast)) if cfg.dominates(d, lp)]
+        sd = [d for d in cfg.stmt_nodes(lambda n: n.kind == "stmt" and src is not None and src in q.assigned_paths(n.ast)) if cfg.dominates(d, anchor_node)]
         if not sd:
             raise AnalysisError("_apply_xheaders: source of the scanned list not understood: %s" % q.unparse(recv))
         g2 = hdr_get(sd[-1].ast.value) if isinstance(sd[-1].ast, ast.Assign) else None
@@ -428,11 +496,12 @@ def rule_precedence(ck):
     ck.ob(rid, ap, site, g2 is not None and g2[0] == "x-forwarded-for", "the scanned list is the X-Forwarded-For header")
     if g2 is not None:
         ck.ob(rid, ap, site, q.dotted(g2[1]) == "self.remote_ip", "without X-Forwarded-For the candidate is the current (socket) address")
-    brk = [n for n in cfg.stmt_nodes(lambda n: n.kind == "stmt" and isinstance(n.ast, ast.Break)) if any(n.ast is x for x in ast.walk(lp.ast))]
-    untrusted = branch_flag(cfg, "%s in self.trusted_downstream" % scanv, False, [scanv])
-    ck.ob(rid, ap, lp.ast.iter, len(brk) >= 1, "the scan stops at an entry", construct="break in scan: %d" % len(brk))
-    for b_ in brk:
-        ck.ob(rid, ap, b_.ast, untrusted.get(b_.id, False), "the scan stops exactly at the first entry that is not a trusted downstream proxy")
+    if lp is not None:
+        brk = [n for n in cfg.stmt_nodes(lambda n: n.kind == "stmt" and isinstance(n.ast, ast.Break)) if any(n.ast is x for x in ast.walk(lp.ast))]
+        untrusted = _either32(branch_flag(cfg, "%s in self.trusted_downstream" % scanv, False, [scanv]), _alias_member_flag(ap, cfg, scanv))
+        ck.ob(rid, ap, lp.ast.iter, len(brk) >= 1, "the scan stops at an entry", construct="break in scan: %d" % len(brk))
+        for b_ in brk:
+            ck.ob(rid, ap, b_.ast, untrusted.get(b_.id, False), "the scan stops exactly at the first entry that is not a trusted downstream proxy")
     # trusted_downstream is the configured set
     init = ck.func(HS, CTX + ".__init__")
     st = q.stores_to(init.node, "self.trusted_downstream")
@@ -483,6 +552,9 @@ def rule_socket_address(ck):
 
 
 def run(ck):
+    from ..x_valuewalk import guard_obligations
+
+    guard_obligations(ck, ['_apply_xheaders', '_unapply_xheaders', '_cleanup', '_parse_body', '_find_groups'])
     ck.rule("C32.ip-validated", "_apply_xheaders stores into self.remote_ip only the local that netutil.is_valid_ip accepted (true branch dominates, no rebinding since)")
     ck.rule("C32.proto-validated", "_apply_xheaders stores into self.protocol only a local known to be in a literal set within {http, https}")
     ck.rule("C32.restore", "every field written by _apply_xheaders is snapshotted once in __init__ (after its initialisation, written nowhere else) and restored from that snapshot on every path of _unapply_xheaders")
